@@ -11,16 +11,19 @@ import lib  # noqa: E402
 
 
 def setup():
+    """Warm-up only: builds as much of the Coq development and of the harness as builds (make -k). It never decides
+    anything: every check builds its own targets again and reports a build failure of its own as a violation, so a
+    part of the tree that does not build here does not keep the other properties from being checked."""
     lib.coq_prepare()
-    rc, out = lib.sh(["timeout", "7200", "make", "-j16", "--no-print-directory"], cwd=lib.COQ)
+    rc, out = lib.sh(["timeout", "7200", "make", "-k", "-j16", "--no-print-directory"], cwd=lib.COQ)
     print(out[-3000:])
     if rc != 0:
-        return rc
+        print("setup: some Coq files did not build (see above); the checks that need them will report it")
     try:
         lib.build_harness()
     except lib.HarnessError as e:
         print(e)
-        return 1
+        print("setup: the combined harness did not build; each check builds its own subset")
     return 0
 
 
